@@ -25,7 +25,19 @@ from .core import HarnessError
 from .memhist import KEYNAMES, kname
 from .vtime import BASE, CLOCK
 
-WRITE_OPS = ("set", "setmany", "incr", "expire")
+XOPS = ("setlock", "islocked", "unlock", "setadd", "setremove", "setpop", "sliceincr", "incrbits", "getbits", "getraw",
+        "getmatch", "delmatch")
+CREATING_XOPS = ("setlock", "setadd", "setremove", "setpop", "sliceincr", "incrbits")   # they end in `_set`
+WRITE_OPS = ("set", "setmany", "incr", "expire") + CREATING_XOPS
+
+# key numbers: 0..7 carry ordinary values (and lock tokens, which are ordinary values); the payload commands have
+# keys of their own, so that no command meets a payload of the wrong type (that would be an AttributeError of the
+# command, not a matter of C11) - all 14 keys share ONE store and compete for its slots
+REGULAR_KEYS = list(range(8))
+SET_KEYS = [8, 9]
+SLICE_KEYS = [10, 11]
+BIT_KEYS = [12, 13]
+ALL_KEYS = REGULAR_KEYS + SET_KEYS + SLICE_KEYS + BIT_KEYS
 
 
 def ticks(t: float) -> int:
@@ -59,6 +71,65 @@ class LruRunner(memhist.Runner):
         # its record, and the idle lines after it, stand for the store it finally left
         for r in self.recs[idx:]:
             r["snap"], r["count"] = snap, len(snap)
+
+    async def _exec(self, w: list[str]) -> str:
+        """the larger alphabet (`XOp` of Model/Lru.lean): commands of `Memory` beyond the regular ones.  Only what
+        C11 is about is canonicalised: the three lock answers, and "the command went through" for the others (their
+        payloads - set members, window lists, bit fields - live under keys no value-reading command touches)."""
+        op = w[0]
+        if op not in XOPS:
+            return await super()._exec(w)
+        api = self.api
+        k = kname(int(w[1])) if len(w) > 1 else None
+        if k is not None:
+            if self._expired_unpurged(k):
+                self._bump(f"{op}_on_expired_unpurged")
+            if len(self.backend.store) >= self.size and k not in self.backend.store and op in CREATING_XOPS:
+                self._bump(f"{op}_creates_entry_on_full_store")
+        try:
+            if op == "setlock":
+                r = await api.set_lock(k, memhist.val_of(w[2]), memhist.ttl_of(w[3]))
+                return "T" if r is True else "F" if r is False else f"?{r!r}"
+            if op == "islocked":
+                r = await api.is_locked(k)
+                return "T" if r is True else "F" if r is False else f"?{r!r}"
+            if op == "unlock":
+                r = await api.unlock(k, memhist.val_of(w[2]))
+                return "T" if r is True else "F" if r is False else f"?{r!r}"
+            if op == "setadd":
+                r = await api.set_add(k, *w[3:], expire=memhist.ttl_of(w[2]))
+                return "U" if r is None else f"?{r!r}"
+            if op == "setremove":
+                r = await api.set_remove(k, *w[2:])
+                return "U" if r is None else f"?{r!r}"
+            if op == "setpop":
+                r = await api.set_pop(k, int(w[2]))
+                return "U" if isinstance(r, (list, tuple)) and all(isinstance(x, str) for x in r) else f"?{r!r}"
+            if op == "sliceincr":
+                start, end, maxv = int(w[3]), int(w[4]), int(w[5])
+                r = await api.slice_incr(k, start, end, maxv, expire=memhist.ttl_of(w[2]))
+                return "U" if type(r) is int else f"?{r!r}"
+            if op == "incrbits":
+                idx = [int(x) for x in w[2:]]
+                r = await api.incr_bits(k, *idx, size=2, by=1)
+                return "U" if isinstance(r, tuple) and len(r) == len(idx) and all(type(x) is int for x in r) else f"?{r!r}"
+            if op == "getbits":
+                idx = [int(x) for x in w[2:]]
+                r = await api.get_bits(k, *idx, size=2)
+                return "U" if isinstance(r, tuple) and len(r) == len(idx) and all(type(x) is int for x in r) else f"?{r!r}"
+            if op == "getraw":
+                await api.get_raw(k)
+                return "U"
+            if op == "getmatch":
+                async for _ in api.get_match("*"):
+                    pass
+                return "U"
+            if op == "delmatch":
+                r = await api.delete_match("*")
+                return "U" if r is None else f"?{r!r}"
+        except Exception as exc:
+            return f"X:{type(exc).__name__}"
+        raise ValueError(f"bad op {w}")
 
     async def run(self, ops: list[str]) -> list[dict]:
         return await self._history(ops)
@@ -118,10 +189,23 @@ def uses_of(line: str, out: str, pre_snap, now: int) -> list[int]:
         return [int(w[1])] if out == "E" else []
     if op == "expire":
         return [int(w[1])] if live_in(pre_snap, int(w[1]), now) else []
+    # ---- the larger alphabet.  Uses, read off the code: a read that finds the entry live, and every write
+    if op == "setlock":                       # set(exist=False): the existence test of a live key, or the write
+        return [int(w[1])] if out in ("T", "F") else []
+    if op == "islocked":
+        return [int(w[1])] if out == "T" else []
+    if op in ("unlock", "getbits"):           # the read is a use iff the entry is live (also when the token differs)
+        return [int(w[1])] if live_in(pre_snap, int(w[1]), now) else []
+    if op in ("setadd", "setremove", "setpop", "sliceincr", "incrbits"):
+        if out == "U":
+            return [int(w[1])]                # written (and read before, if live)
+        return [int(w[1])] if live_in(pre_snap, int(w[1]), now) else []
+    if op == "getmatch":                      # every key `scan` yields is read, in store order
+        return [k for k, dl in pre_snap if dl is None or now < dl] if out == "U" else []
     return []
 
 
-def deleted_by(line: str) -> set[int] | None:
+def deleted_by(line: str, out: str = "", pre_snap=(), now: int = 0) -> set[int] | None:
     """keys a command removes on purpose (None = all)"""
     w = line.split()
     if w[0] == "delete":
@@ -130,12 +214,16 @@ def deleted_by(line: str) -> set[int] | None:
         return {int(x) for x in w[1:]}
     if w[0] == "clear":
         return None
+    if w[0] == "unlock":
+        return {int(w[1])} if out == "T" else set()
+    if w[0] == "delmatch":
+        return {k for k, dl in pre_snap if dl is None or now < dl}
     return set()
 
 
 def keys_mentioned(line: str) -> set[int]:
     w = line.split()
-    if w[0] in ("set", "get", "exists", "incr", "delete", "expire", "getexpire"):
+    if w[0] in ("set", "get", "exists", "incr", "delete", "expire", "getexpire") or (w[0] in XOPS and len(w) > 1):
         return {int(w[1])}
     if w[0] == "setmany":
         return {int(kv.split("=")[0]) for kv in w[2:]}
@@ -190,7 +278,7 @@ class Oracle:
         # (P2) victim rule
         pre_keys = [k for k, _ in pre]
         post_keys = [k for k, _ in snap]
-        dele = deleted_by(line)
+        dele = deleted_by(line, out, pre, at)
         expired_present = [k for k, dl in pre if dl is not None and dl <= at]
         cands = pre_keys + [k for k in used if k not in pre_keys]
         evicted = []
@@ -265,11 +353,81 @@ def judge(cap: int, rec: list[dict], stats: dict | None = None):
 # model side
 
 
+MODEL_ARGS = {"setadd": 3, "setremove": 2, "setpop": 2, "sliceincr": 3, "incrbits": 2, "getbits": 2}
+
+
+def model_line(line: str) -> str:
+    """the model does not look at payloads (members, window bounds, bit indexes): they are cut off"""
+    w = line.split()
+    return " ".join(w[:MODEL_ARGS[w[0]]]) if w[0] in MODEL_ARGS else line
+
+
 def model_requests(cap: int, rec: list[dict]) -> list[str]:
     lines = [f"case {cap}"]
     for r in rec:
-        lines += [r["line"], "keys", "uselog"]
+        lines += [model_line(r["line"]), "keys", "uselog"]
     return lines
+
+
+# ------------------------------------------------------------------------------------------------
+# generator for the larger alphabet
+
+XWEIGHTS = [("setlock", 14), ("islocked", 7), ("unlock", 9), ("setadd", 10), ("setremove", 5), ("setpop", 4),
+            ("sliceincr", 8), ("incrbits", 6), ("getbits", 3), ("getraw", 2), ("getmatch", 3), ("delmatch", 1),
+            ("any_exists", 5), ("any_expire", 5), ("any_delete", 3), ("any_getexpire", 2), ("any_islocked", 2)]
+TOKENS = ["t:0", "t:1", "t:2"]
+
+
+def gen_xop(rng, ttls) -> str:
+    names, ws = zip(*XWEIGHTS)
+    op = rng.choices(names, ws)[0]
+    ttl = lambda: rng.choice(ttls)
+    if op == "setlock":
+        return f"setlock {rng.choice(REGULAR_KEYS)} {rng.choice(TOKENS)} {ttl()}"
+    if op == "islocked":
+        return f"islocked {rng.choice(REGULAR_KEYS)}"
+    if op == "unlock":
+        return f"unlock {rng.choice(REGULAR_KEYS)} {rng.choice(TOKENS)}"
+    if op == "setadd":
+        return f"setadd {rng.choice(SET_KEYS)} {ttl()} " + " ".join(f"m{rng.randrange(4)}" for _ in range(rng.randint(1, 2)))
+    if op == "setremove":
+        return f"setremove {rng.choice(SET_KEYS)} m{rng.randrange(4)}"
+    if op == "setpop":
+        return f"setpop {rng.choice(SET_KEYS)} {rng.choice([0, 1, 100])}"
+    if op == "sliceincr":
+        a = rng.randrange(4)
+        return f"sliceincr {rng.choice(SLICE_KEYS)} {ttl()} {a} {a + rng.randint(1, 4)} {rng.choice([1, 2, 5])}"
+    if op == "incrbits":
+        return f"incrbits {rng.choice(BIT_KEYS)} " + " ".join(str(rng.randrange(4)) for _ in range(rng.randint(1, 2)))
+    if op == "getbits":
+        return f"getbits {rng.choice(BIT_KEYS)} {rng.randrange(4)}"
+    if op == "getraw":
+        return f"getraw {rng.choice(ALL_KEYS)}"
+    if op in ("getmatch", "delmatch"):
+        return op
+    k = rng.choice(ALL_KEYS)
+    if op == "any_exists":
+        return f"exists {k}"
+    if op == "any_expire":
+        return f"expire {k} {ttl()}"
+    if op == "any_delete":
+        return f"delete {k}"
+    if op == "any_getexpire":
+        return f"getexpire {k}"
+    return f"islocked {k}"
+
+
+def gen_xhistory(rng, maxlen: int, weights: dict | None = None, advs=None, ttls=None, share: float = 0.5) -> list[str]:
+    """histories mixing the regular commands (over the regular keys) with the larger alphabet"""
+    n = rng.randint(1, maxlen)
+    tt = ttls or memhist.TTLS
+    ops: list[str] = []
+    while len(ops) < n:
+        if rng.random() < share:
+            ops.append(gen_xop(rng, tt))
+        else:
+            ops += memhist.gen_history(rng, len(REGULAR_KEYS), 1, weights, advs=advs, ttls=ttls)
+    return ops
 
 
 def parse_list(ans: str, tag: str) -> list[int] | None:
